@@ -72,6 +72,7 @@ type FnEnc struct {
 	heldPred      string          // predicate "this cell is a lock ghost" (see heldCellPred)
 	heldPredDone  bool
 	curCalleeFull string            // full name of the callee whose call-site assertions are being emitted
+	inGlobalInv   bool              // evaluating package-level invariants after a havoc
 	rangeStartHas map[string]string // visited-set key -> which keys the ranged map had at the start
 	eqState       *State            // state in which == on interface values loads boxed contents
 	topCallKey    string            // key of the last call numbered in the function under contract itself
